@@ -133,12 +133,12 @@ pub fn materialise(c: &AuxCase) -> (Vec<u8>, &'static str) {
     }
 }
 
-type BaseKey = (HashId, Vec<Level>, u64, u64);
+type BaseKey = (HashId, Vec<Level>, u64, u64, Vec<u8>);
 static SIGN_CACHE: OnceLock<Mutex<HashMap<BaseKey, (Vec<u8>, Vec<u8>)>>> = OnceLock::new();
 
 /// (signature, successor key) without aux data.
 fn baseline_sign(c: &AuxCase, counter: u64, seed: &[u8], msg: &[u8]) -> Result<(Vec<u8>, Vec<u8>), String> {
-    let key: BaseKey = (c.hash, c.levels.clone(), c.seed, counter);
+    let key: BaseKey = (c.hash, c.levels.clone(), c.seed, counter, msg.to_vec());
     let cache = SIGN_CACHE.get_or_init(|| Mutex::new(HashMap::new()));
     if let Some(v) = cache.lock().unwrap().get(&key) {
         return Ok(v.clone());
@@ -231,6 +231,66 @@ pub fn check_aux(c: &AuxCase) -> Verdict {
     pass(format!("{}|{}|{}|root-h{}", class, match c.op { AuxOp::Keygen => "keygen", AuxOp::Sign(_) => "sign", AuxOp::SignViaKey(_) => "sign-via-key" }, len_class, c.levels[0].1), !trivial)
 }
 
+#[derive(Clone, Debug, Serialize, Deserialize)]
+pub struct ChainCase {
+    pub hash: HashId,
+    pub levels: Vec<Level>,
+    pub seed: u64,
+    pub start: u64,
+    /// how the buffer is altered between the first and the later signatures (MAC bytes untouched):
+    /// 0 every node byte xored, 1 one bit in every node, 2 level word changed, 3 nodes of another seed
+    pub corrupt: u8,
+}
+
+/// Sign three times with ONE SigningKey object: first with a valid buffer, then with a buffer whose
+/// nodes were altered but whose trailing MAC bytes are intact. Every signature must equal the one
+/// made without aux data.
+pub fn check_chain(c: &ChainCase) -> Verdict {
+    let n = c.hash.n();
+    let m = Model::rfc(c.hash);
+    let seed = gen::expand(c.seed, n);
+    let total: u64 = 1u64 << c.levels.iter().map(|l| l.1).sum::<u32>();
+    let good = valid_aux(&m, &c.levels, &seed, 4000);
+    if good.len() < 8 + n {
+        return pass("vacuous", false);
+    }
+    let mut bad = good.clone();
+    let body = 4..good.len() - n;
+    match c.corrupt % 4 {
+        0 => bad[body.clone()].iter_mut().for_each(|b| *b ^= 0xff),
+        1 => bad[body.clone()].iter_mut().step_by(n).for_each(|b| *b ^= 0x01),
+        2 => bad[3] ^= 0x08,
+        _ => {
+            let other = valid_aux(&m, &c.levels, &gen::expand(c.seed ^ 0xabcd, n), 4000);
+            bad[body.clone()].copy_from_slice(&other[body.clone()]);
+        }
+    }
+    let msgs: Vec<Vec<u8>> = (0..3u64).map(|i| gen::expand(i ^ 0xc4a1, 25)).collect();
+    let start = c.start % (total - 3);
+    let blob = hss::private_key_blob(&c.levels, start, &seed);
+    let auxes = vec![Some(good.clone()), Some(bad.clone()), Some(bad)];
+    let got = match libapi::sign_chain_same_instance(c.hash, &blob, &msgs, &auxes) {
+        Out::Ok(v) => v,
+        o => return fail(format!("chain-{}", o.kind()), format!("{:?}", o.panic_msg())),
+    };
+    for (i, (sig, key_after)) in got.iter().enumerate() {
+        let ac = AuxCase { hash: c.hash, levels: c.levels.clone(), seed: c.seed, spec: AuxSpec::Zero(0), op: AuxOp::Sign(start + i as u64) };
+        let (bsig, bnext) = match baseline_sign(&ac, start + i as u64, &seed, &msgs[i]) {
+            Ok(v) => v,
+            Err(e) => return fail("baseline-sign", e),
+        };
+        match sig {
+            Some(s) if *s == bsig => {}
+            Some(_) => return fail(format!("sign-differs same-instance call {}", i), format!("signature #{} of one SigningKey object differs from the signature made without aux data after the buffer was altered (variant {}) with its MAC bytes intact", i + 1, c.corrupt % 4)),
+            None => return fail("chain-sign-err", format!("signature #{} failed", i + 1)),
+        }
+        if *key_after != bnext {
+            return fail("successor-differs same-instance", "key bytes after the call differ from the successor produced without aux data");
+        }
+    }
+    pass(format!("chain|{}|variant{}", c.hash.name(), c.corrupt % 4), true)
+}
+
 /// Non-vacuity probe (reported, not asserted): a planted cache WITH a valid MAC does change the
 /// public key, i.e. the cache is really consulted and a skipped MAC check would be noticed.
 fn probe_cache_is_consulted(h: HashId) -> bool {
@@ -305,6 +365,19 @@ pub fn run(ctx: &Ctx) {
     for cl in ["bit-flip|sign|len>=hdr|root-h5", "garbage-first-zero|sign|len>=hdr|root-h5", "valid|keygen|len>=hdr|root-h5", "planted-no-mac|keygen|len>=hdr|root-h5", "truncated|sign|len>=hdr|root-h5"] {
         ctx.require_class("aux_classes", cl);
     }
+
+    // one SigningKey instance, several signatures: the buffer is authenticated again on every call
+    let mut chain: Vec<ChainCase> = Vec::new();
+    for h in ALL_HASHES {
+        for (si, shape) in [vec![(4u32, 5u32)], vec![(4, 5), (8, 2)], vec![(8, 2), (4, 2)]].iter().enumerate() {
+            for start in [0u64, 5] {
+                for corrupt in 0..4u8 {
+                    chain.push(ChainCase { hash: h, levels: shape.clone(), seed: si as u64, start, corrupt });
+                }
+            }
+        }
+    }
+    ctx.enumerate("same_instance_chain", chain.len() as u64, false, |i| chain[i as usize].clone(), check_chain);
 
     // root trees tall enough that cached levels exceed 64 KiB (offsets beyond 16 bits)
     let mut tall: Vec<AuxCase> = Vec::new();
